@@ -100,7 +100,7 @@ Example C02_rejects_extra_replay :
      commit_on 3 2; commit_on 3 1; merge_of [2%Z; 1%Z]] = false.
 Proof. vm_compute. reflexivity. Qed.
 
-(* a plan that forgets the smaller... larger component is rejected: [retained] *)
+(* a plan that analyses the smaller component and drops the larger one is rejected: [retained] *)
 Example C02_rejects_smaller_component :
   plan_ok [[]; []; [1]] [emerge 1 (Some 0); commit_on 0 1] = false.
 Proof. vm_compute. reflexivity. Qed.
